@@ -290,6 +290,26 @@ def hooks(rep, u):
             ok2 = not leak
             why2 = ("the failing exit at line %s is reachable after the start hook without the state store: tp_shutdown will skip the stop hook" %
                     fc.blocks[leak[0][0]].elems[leak[0][1]].get("ln")) if leak else "every path from the hook to a failing exit passes the state store"
+    # ... and conversely: once the 'started' state is stored, no failing exit is reachable before the start hook had its
+    # chance (the NULL test of the hook pointer counts as that chance)
+    if len(st) == 1 and stores and destroys:
+        guards_ = [bid for bid, c_, atom_ in r_mpt.branches_with(fc, lambda x, ps: x.get("k") == "mem" and x["f"] == "tpt_on_start")
+                   if fc.dominates(bid, st[0][0])]
+        anchor = set(guards_) | {st[0][0]}
+        okc = True
+        whyc = "every path from the state store to a failing exit passes the start hook (or its NULL test)"
+        for sp_ in stores:
+            if fc.pos_dominates(st[0], sp_):
+                continue          # store after the hook: covered by the rule above
+            r = fc.reach_from(fc.blocks[sp_[0]].rsucc(), avoid=list(anchor)) if sp_[0] not in anchor else set()
+            leak = [d for d in destroys if d[0] in r]
+            if leak:
+                okc = False
+                whyc = "the failing exit at line %s is reachable after the 'started' state was stored at line %s but before the start hook: " \
+                       "tp_shutdown will run the stop hook for a thread whose start hook never ran" % (
+                           fc.blocks[leak[0][0]].elems[leak[0][1]].get("ln"), fc.blocks[sp_[0]].elems[sp_[1]].get("ln"))
+        (rep.proved if okc else rep.violated)("R-PAIR", fc, "pvt-no-failing-exit-between-state-and-hook",
+                                              "the 'started' state of the virtual thread is stored only where its start hook runs before any failure of tp_create", whyc)
     (rep.proved if ok2 else rep.violated)("R-PAIR", fc, "pvt-started-before-failing-exits",
                                           "once the virtual thread's start hook has run, every later failure of tp_create finds the state that makes tp_shutdown run the stop hook", why2)
     # latch
